@@ -26,6 +26,11 @@ def main() -> int:
     cs = cases()
     results = pmap(pyenc.work, [(c, "encode") for c in cs])
     tot = aggregate(PROP, ev, rep, results)
+    from .. import golden
+
+    gn, gok, gnotes = golden.tiein()
+    if gn == 0 or gok != gn:
+        rep.inconc(f"reference encoder is not tied to the upstream golden digests: {gnotes}")
     ev.cov = {
         "programs": tot["messages"],
         "disagreements_checked": tot["counterexamples_replayed"],
@@ -39,13 +44,14 @@ def main() -> int:
         "if_conversions": tot["merges"],
         "interpreter_validation": {"n": tot["witness"], "agree": tot["witness_agree"]},
         "cross_solver": {"solver": "cvc5 1.4 (wheel)", "n": tot.get("xsolver_n", 0), "agree": tot.get("xsolver_agree", 0), "disagree": tot.get("xsolver_disagree", 0), "cvc5_unknown": tot.get("xsolver_cvc5_unknown", 0), "errors": tot.get("xsolver_errors", 0)},
+        "reference_validation": {"upstream_golden_digests": gn, "reproduced_by_reference_encoder_and_python_runtime": gok},
         "functions_encoded": repo_files(RUNTIME_FILES),
         "bounds": "families F_shape (+seeded random tail) and the quick F_grid slice; widths 1..64; all in-range values of every leaf; BV width 192 with overflow guard; <=600 paths per message",
         "outside_claim": "schemas outside the families; CPython int/bytearray are modelled (guarded BV-192, SymBytes); dataclasses/enum run for real",
         "stubs": ["int", "bool", "isinstance", "bytearray->SymBytes", "range", "min", "max", "if-conversion AST transform"],
         "explanation": "one symbolic run of the real generated encode() + bp.py per message and path; single query out-bytes != spec-bytes; unsat = holds for every in-range value",
     }
-    ev.assumptions = ["z3 5.1 decides QF_BV queries correctly", "reference encoder (vlib.schema.spec_*) states the specified layout", "proxy semantics validated against native CPython on witness/extreme values each run"]
+    ev.assumptions = ["z3 5.1 decides QF_BV queries correctly", "reference encoder (vlib.schema.spec_*) states the specified layout (it reproduces the four golden sha256 digests of the upstream encoding cases on every run)", "proxy semantics validated against native CPython on witness/extreme values each run"]
     return rep.finish(ev)
 
 
